@@ -146,6 +146,45 @@ def _extra_condition(init, dupname, extras):
     return None
 
 
+def completed_loads_record(idx, prog):
+    """Name of a class-level dict on Program that only records libraries load_commands has finished loading: it is written only in
+    load_commands, after the package walk and the imports (no loading call is reachable from the store), with the module object
+    imported in that call; and it is read only to compare its entry by identity (`is`) with the entry of sys.modules.  None otherwise."""
+    lc = prog.methods.get("load_commands")
+    if lc is None:
+        return None
+    cands = [name for name, v in prog.attrs.items() if isinstance(v, ast.Dict) and not v.keys]
+    for name in cands:
+        def is_rec(x):
+            return isinstance(x, ast.Attribute) and x.attr == name and isinstance(x.value, ast.Name) and x.value.id in ("cls", "self", prog.name)
+        uses = [(f, n) for f in idx.funcs if hasattr(f, "node") for n in own_nodes(f.node) if is_rec(n)]
+        if not uses or any(f is not lc for f, n in uses):
+            continue
+        cfg = K.cfg_of(idx, lc)
+        loaders = [c for c in cfg.find("call") if K.src(c.ast.func).split(".")[-1] in ("import_module", "exec_module", "walk_packages", "iter_modules", "load_commands", "__import__")]
+        stores = [s_ for s_ in cfg.find("store") if s_.meta.get("subscript") and is_rec(s_.ast.value)]
+        if not stores or any(l_ in cfg.reachable([s_]) for s_ in stores for l_ in loaders):
+            continue
+        ok = True
+        for f, n in uses:
+            # every other mention: `cls.R.get(k) is imported` / `cls.R[k] is imported`
+            par = None
+            for x in own_nodes(lc.node):
+                for ch in ast.iter_child_nodes(x):
+                    if ch is n:
+                        par = x
+            if isinstance(par, ast.Subscript) and isinstance(par.ctx, ast.Store):
+                continue
+            cmp_ok = False
+            for x in own_nodes(lc.node):
+                if isinstance(x, ast.Compare) and len(x.ops) == 1 and isinstance(x.ops[0], ast.Is) and any(n is y for y in ast.walk(x)):
+                    cmp_ok = True
+            ok = ok and cmp_ok
+        if ok:
+            return name
+    return None
+
+
 def loader_reports_what_it_loaded(idx, prog):
     """load_commands returns a list that only ever receives names next to the call that imports / executes / walks that module"""
     lc = prog.methods.get("load_commands")
@@ -301,7 +340,10 @@ def run(ctx, idx):
         for n in own_nodes(f_.node):
             if isinstance(n, ast.Attribute) and (idx.qualname(f_.module, n, f_) or "") in ("sys.modules", "sys.meta_path", "sys.path_importer_cache"):
                 hist.append((f_, n))
-    if hist:
+    rec_ = completed_loads_record(idx, prog) if hist else None
+    if hist and rec_ is not None and all(f_ is lc for f_, n in hist):
+        ctx.hold("C19.a", con, K.rel(lc), hist[0][1].lineno, "sys.modules is consulted only to compare its entry by identity with `%s`, a record written after a complete load of that very module: a skipped library has been walked in this process, and the registry only grows" % rec_)
+    elif hist:
         f_, n = hist[0]
         ctx.violate("C19.a", con, K.rel(f_), n.lineno, "`%s` is consulted while loading: a library (package) that some earlier import already put there is treated as loaded although importing a package does not import its command modules, so which commands a program offers depends on what the process imported before" % K.src(n))
     else:
@@ -436,7 +478,9 @@ def run(ctx, idx):
             ctx.violate("C19.c", "%s::module-cache(%s)" % (pm.rel, name), pm.rel, v.lineno, "module-level mutable `%s` in program.py can cache lookups across programs" % name)
     for c in [prog]:
         for name, v in c.attrs.items():
-            if isinstance(v, (ast.Dict, ast.List, ast.Set)):
+            if isinstance(v, (ast.Dict, ast.List, ast.Set)) and name == completed_loads_record(idx, prog):
+                ctx.hold("C19.c", "%s::class-cache(%s)" % (pm.rel, name), pm.rel, v.lineno, "`%s` only records libraries whose load has completed (see C19.a); it holds no commands and no lookups" % name)
+            elif isinstance(v, (ast.Dict, ast.List, ast.Set)):
                 ctx.violate("C19.c", "%s::class-cache(%s)" % (pm.rel, name), pm.rel, v.lineno, "class-level mutable `%s` on Program is shared by every program in the process" % name)
     # find_command_class returns a lookup in the per-instance table only
     fcc = prog.methods.get("find_command_class")
